@@ -85,15 +85,40 @@ def read_line_info(fn):
     return {"block": i, "buf": buf, "ok": ok_blk, "err": err_blk, "nonzero": nz_blk, "nonzero_all": nz_all, "zero": zero_blk, "dest": dest}
 
 
+def fresh_empty_string(fn, local, at_block):
+    """`local` holds a String that is still empty when block `at_block` runs: it is the result of String::new() (or default / with_capacity)
+    and is mutably borrowed nowhere except in / after that block"""
+    cfg = cfg_of(fn)
+    made = [i for i, p, full, c in calls(fn) if c["dest"]["local"] == local and not c["dest"]["proj"]
+            and p in ("alloc::string::String::new", "alloc::string::String::with_capacity", "<alloc::string::String as core::default::Default>::default")]
+    if len(made) != 1 or not cfg.dominates(made[0], at_block):
+        return False
+    for bi, b in enumerate(fn["blocks"]):
+        for s_ in b["stmts"]:
+            if "assign" in s_ and isinstance(s_["assign"][1], dict) and "ref" in s_["assign"][1]:
+                r = s_["assign"][1]["ref"]
+                if r["place"]["local"] == local and r.get("mut") and bi != at_block and not cfg.dominates(at_block, bi):
+                    return False
+            if "assign" in s_ and s_["assign"][0]["local"] == local:
+                return False
+    return True
+
+
 def clear_blocks(fn, buf):
     out = []
     for i, p, full, c in calls(fn):
         if p in ("alloc::string::String::clear", "alloc::string::String::truncate", "core::mem::take", "core::mem::replace", "core::mem::swap"):
-            a = c["args"][0] if c["args"] else None
-            al = (a.get("move") or a.get("copy") or {}).get("local") if a else None
-            tgt = ref_target(fn, al) if al is not None else None
-            if tgt == buf:
+            tg = []
+            for a in c["args"][:2]:
+                al = (a.get("move") or a.get("copy") or {}).get("local") if isinstance(a, dict) else None
+                tg.append(ref_target(fn, al) if al is not None else None)
+            if tg and tg[0] == buf and p != "core::mem::swap":
                 out.append(i)
+            elif p == "core::mem::swap" and buf in tg and len(tg) == 2:
+                other = tg[1] if tg[0] == buf else tg[0]
+                # exchanging the buffer with a String that is still empty empties the buffer
+                if other is not None and fresh_empty_string(fn, other, i):
+                    out.append(i)
     return out
 
 
